@@ -21,7 +21,7 @@ SHIFTS = [1, -1, 0x10, -0x10, 0x100, -0x100, 0x1000, -0x1000, 0x2F, 0xB000]
 BASE_ORG = 0x2000
 RENAMES = [["Q", "ZZ9", "LOOP1", "a1"], ["SU", "XS", "PCX", "DPY"], ["XS", "SU", "a1", "Q"], ["PCRL", "AB", "DD", "CCX"]]
 FORMATS = ["space1", "tabs", "space8", "nocomment", "comment.x", "comment.hostile", "mnem.lower", "mnem.mixed", "trailing.ws"]
-ABS_TAGS = {"ext.lbl", "ext.lbl.p", "ext.lbl+1", "imm.lbl", "imm.lbl.p", "extind.lbl"}
+ABS_TAGS = {"ext.lbl", "ext.lbl.p", "ext.lbl+1", "imm.lbl", "imm.lbl.p", "extind.lbl", "idx.lbl", "idx.lbl.p", "ind.lbl"}
 LABEL_RE = re.compile(r"\bL(\d)\b")
 
 
@@ -34,7 +34,7 @@ def base_programs(tier):
     for a, b in itertools.product(noorg, repeat=2):
         for case in c02.programs_for((a, b), ("all",)):
             yield case
-    sub = noorg if tier == "thorough" else ["inh1", "ext.lbl", "imm.lbl", "pcr.lbl", "bra", "equ8", "extind.lbl", "idx.off8n", "fcc11"]
+    sub = noorg if tier == "thorough" else ["inh1", "ext.lbl", "imm.lbl", "pcr.lbl", "bra", "equ8", "extind.lbl", "idx.lbl", "fcc11"]
     for tup in itertools.product(sub, repeat=3):
         for case in c02.programs_for(tup, ("all",)):
             if "UNDEF" in case["bind"]:
